@@ -76,12 +76,13 @@ def splitServers (toks : List String) : List (List String) :=
     | g :: gs => (t :: g) :: gs) [[]]).filter (fun g => !g.isEmpty)
 
 def parseAnnounced (g : List String) :
-    Option (Announced SymSig Nat × List (SignedCert SymSig Nat × Parsed Nat)) :=
+    Option (Announcement SymSig Nat × List (SignedCert SymSig Nat × Parsed Nat)) :=
   match g with
   | i :: c :: h :: certs => do
-      let cps ← certs.mapM parseCert
+      -- a certificate token `U` is an entry `SignedCertificate.load` cannot decode
+      let ents ← certs.mapM (fun t => if t == "U" then some none else (parseCert t).map some)
       let conn ← (if c == "0" then some false else if c == "1" then some true else none)
-      pure (⟨← i.toNat?, conn, cps.map (·.1), ← hexToNat h⟩, cps)
+      pure (⟨← i.toNat?, conn, ents.map (fun e => e.map (·.1)), ← hexToNat h⟩, ents.filterMap id)
   | _ => none
 
 /-- `offer <keys> <preferred> <forUpload 0|1> <time> S <id> <connected> <sha1> <cert>… S …`
@@ -97,7 +98,7 @@ def handleOffer : List String → String
         match table.find? (fun cp => cp.1.certificate == m) with
         | some cp => cp.2
         | none => .invalid
-      let out := (serversAt symVerify parse keys pref (fuT == "1") now (srvs.map (·.1))).map (fun s => toString s.id)
+      let out := (serversAtA symVerify parse keys pref (fuT == "1") now (srvs.map (·.1))).map (fun s => toString s.id)
       if out.isEmpty then "-" else ",".intercalate out
     | _, _, _, _ => "bad-op"
   | _ => "bad-op"
